@@ -1,12 +1,20 @@
 #!/bin/bash
 # (Re)builds the harness against /repo's current working tree with hooks on.
-set -e
 . "$(dirname "$0")/env.sh"
 cd "$VERIF_ROOT/harness"
 mkdir -p "$VERIF_ROOT/.work" "$VERIF_ROOT/.cache"
 # serialise concurrent builds
 exec 9>"$VERIF_ROOT/.work/build.lock"
 flock 9
+# bin/try_seed.sh, bin/all_seeds.sh and bin/demo-mutants.sh hold this lock exclusively while a deliberate
+# change is applied to /repo: a build started by somebody else in that window waits until /repo is restored
+if [ -z "$VERIF_REPO_LOCK_HELD" ]; then
+  exec 8>"$VERIF_ROOT/.work/repo.lock"
+  flock -s 8
+fi
 python3 "$VERIF_ROOT/bin/gen_overlay.py"
 cp /repo/go.sum "$VERIF_ROOT/harness/go.sum" 2>/dev/null || true
 go build -tags verif -overlay "$VERIF_ROOT/.work/overlay.json" -o "$VERIF_ROOT/.work/resmc" ./cmd/resmc
+rc=$?
+[ -z "$VERIF_REPO_LOCK_HELD" ] && flock -u 8
+exit $rc
